@@ -48,14 +48,18 @@ def gen_case(rng, car):
         if rng.random() < 0.4:
             k = rng.randrange(len(N))
             Mx = Dense(ttgen.rand_core(rng, (rng.choice([1, 2, 3, 4]), N[k]), cplx, -2, 2))
-            return Op("OMprod", [x, Mx], [[k], [0]]), "mprod-single", None
+            e = Op("OMprod", [x, Mx], [[k], [0]])
+            if rng.random() < 0.35: e.impl_modes = [k - len(N)]           # the same mode counted from the end
+            return e, "mprod-single" + ("-negative" if getattr(e, "impl_modes", None) else ""), None
         modes, mats, cur = [], [], list(N)
         for _ in range(rng.choice([1, 2, 3])):
             k = rng.randrange(len(N))
             l = rng.choice([1, 2, 3, 4])
             mats.append(Dense(ttgen.rand_core(rng, (l, cur[k]), cplx, -2, 2)))
             modes.append(k); cur[k] = l
-        return Op("OMprod", [x] + mats, [modes, [1]]), "mprod-list", None
+        e = Op("OMprod", [x] + mats, [modes, [1]])
+        if rng.random() < 0.25: e.impl_modes = [k_ - len(N) if rng.random() < 0.6 else k_ for k_ in modes]
+        return e, "mprod-list", None
     if r < 0.82:
         return Op("ODiag", [gen_tt(rng, cplx, d=rng.choice([1, 2, 3]), rmax=2)], [[0]]), "diag-embed", None
     if r < 0.90:
@@ -64,7 +68,15 @@ def gen_case(rng, car):
     if r < 0.94:
         return Op("OToTTM", [gen_tt(rng, cplx)]), "to_ttm", None
     if r < 0.98:
-        return Op("OConj", [gen_tt(rng, cplx) if rng.random() < 0.6 else gen_ttm(rng, cplx)]), "conj", None
+        x = gen_tt(rng, cplx) if rng.random() < 0.6 else gen_ttm(rng, cplx)
+        k = rng.random()
+        if k < 0.5: return Op("OConj", [x]), "conj", None
+        # conj of an object that already went through conj and view-only operations (torch's lazy conjugate bit is still set on its cores)
+        inner = Op("OConj", [x])
+        if k < 0.7: return Op("OConj", [inner]), "conj-conj", None
+        if k < 0.85: return Op("OConj", [Op("OClone", [inner])]), "conj-clone-conj", None
+        if isinstance(x, Lit4): return Op("OConj", [Op("OTr", [inner], [[len(x.cores)]])]), "conj-t-conj", None
+        return Op("OConj", [Op("OToTTM", [inner])]), "conj-to_ttm-conj", None
     return Op("OClone", [gen_tt(rng, cplx) if rng.random() < 0.6 else gen_ttm(rng, cplx)]), "clone", None
 
 def nontrivial(e, cat):
